@@ -4,7 +4,7 @@ from . import carriers, corpus
 from .corpus import b64, unb64
 from .pool import HASH_CLASSES
 
-NAMES = ["a.md", "b.md", "c.md", "d.md", "e.md", "k.md", "m.md", "z.md", "sub/a.md", "sub/n.md", "zz/q.md", "B.md", "_x.md", "0.md"]
+NAMES = ["a.md", "b.md", "c.md", "d.md", "e.md", "k.md", "m.md", "z.md", "sub/a.md", "sub/n.md", "zz/q.md", "B.md", "_x.md", "0.md", "co$t.md", "two words.md"]
 
 COPY_CHUNKS = [None, None, None, 1, 7, 64, 4096]
 
